@@ -114,6 +114,32 @@ func TestC04(t *testing.T) {
 		}
 		mon.Emit(r, "history", p, "history")
 	}
+	// targeted: the deleted end is appended again (Head / Tail return to exactly their flushed values), then a restart
+	for _, fl := range []string{"plain", "ctx"} {
+		for _, wb := range []int{1, 2, 4, 64} {
+			for _, side := range []string{"head", "tail"} {
+				for _, k := range []int{1, 3, 5} {
+					for _, fresh := range []bool{false, true} {
+						if side == "tail" && fresh && k > 1 {
+							continue
+						}
+						ops := []c04Op{{Op: "append", Hs: []uint64{2, 3, 4, 5, 6, 7}}, {Op: "append", Hs: []uint64{8, 9, 10, 11, 12, 13}}, {Op: "sync"}, {Op: "delete", Side: side, K: k}}
+						if side == "head" {
+							ops = append(ops, c04Op{Op: "append-next", K: k})
+						} else {
+							var hs []uint64
+							for h := uint64(2); h < uint64(2+k); h++ {
+								hs = append(hs, h)
+							}
+							ops = append(ops, c04Op{Op: "append", Hs: hs})
+						}
+						ops = append(ops, c04Op{Op: "restart", Fresh: fresh}, c04Op{Op: "append-next", K: 2}, c04Op{Op: "restart", Fresh: !fresh})
+						mon.Emit(r, "history", c04P{Cfg: Cfg{SC: 8, IC: 8, WB: wb, Flavour: fl}, Chain: 24, Ops: ops}, "history")
+					}
+				}
+			}
+		}
+	}
 	r.Finish()
 }
 
